@@ -26,13 +26,12 @@ def spaces (n : Nat) : List Char := List.replicate n ' '
 def indent4 : List Char := [' ', ' ', ' ', ' ']
 
 /-- `str::lines()`: split at `\n`, a final empty piece is dropped, one `\r` before a `\n` is stripped -/
+def stripCr : List Char → List Char
+  | '\r' :: c => c
+  | c => c
 def linesAux : List Char → List Char → List (List Char)
   | [], cur => if cur.isEmpty then [] else [cur.reverse]
-  | '\n' :: r, cur =>
-    let l := match cur with
-      | '\r' :: c => c
-      | c => c
-    l.reverse :: linesAux r []
+  | '\n' :: r, cur => (stripCr cur).reverse :: linesAux r []
   | c :: r, cur => linesAux r (c :: cur)
 def lines (s : List Char) : List (List Char) := linesAux s []
 
